@@ -663,7 +663,7 @@ pub fn run(ctx: &Ctx) -> i32 {
         ctx.tier,
         ctx.seed,
         "exploration",
-        "documents printed by the harness from the C01 generator in wild spelling (comments before tokens on the same line, multi-line comments, CRLF, mixed case; a separately counted non-ASCII class), opened and replaced through a history of 1..4 full-text versions (didChange, or didClose + didOpen with the version restarted) (optionally with another document open), then semanticTokens/full. The response is decoded under the LSP relative encoding (legend read from the initialize response): strictly increasing, non-overlapping, every range equals exactly one lexeme of the harness' lexeme table for the CURRENT text in UTF-16 units (while KF-C15-02 is known, a non-ASCII document may instead be consistent in bytes - one unit for the whole response), legend entry compatible with the lexeme class, every identifier / comment / address / keyword / operator lexeme reported; 20 hand-written texts whose lexemes touch without blanks (an address before a period, operators after comments ...); a document with an unlexable character yields result null. Non-trivial: >= 3 lines with tokens and a comment followed by a token on the same line; distinct by document text.",
+        "documents printed by the harness from the C01 generator in wild spelling (comments before tokens on the same line, multi-line comments, CRLF, mixed case; a separately counted non-ASCII class), opened and replaced through a history of 1..4 full-text versions (didChange, or didClose + didOpen with the version restarted) (optionally with another document open), then semanticTokens/full. The response is decoded under the LSP relative encoding (legend read from the initialize response): strictly increasing, non-overlapping, every range equals exactly one lexeme of the harness' lexeme table for the CURRENT text in UTF-16 units (while KF-C15-02 is known, a non-ASCII document may instead be consistent in bytes - one unit for the whole response), legend entry compatible with the lexeme class, every identifier / comment / address / keyword / operator lexeme reported; 20 hand-written texts whose lexemes touch without blanks (an address before a period, operators after comments ...); a neighbour grid of 400 documents (every ordered pair of 80 representative lexemes, separated by a blank, a line break, a comment, a comment between blanks, or nothing where the two may touch: the class of a lexeme is a matter of its own text); a document with an unlexable character yields result null. Non-trivial: >= 3 lines with tokens and a comment followed by a token on the same line; distinct by document text.",
     );
     let gates = ctx.gates_for("C15");
     let off = gates.off_list();
